@@ -130,7 +130,7 @@ func (w *c07World) check() {
 	}
 }
 
-//verif:entry tier=quick,thorough cover=leader,shared,sequential
+//verif:entry dpor tier=quick,thorough cover=leader,shared,sequential
 //verif:doc SingleFlight.DoEx/Do: goroutine 0 makes two consecutive calls on k1 (the first returns a value, an error or panics: symbolic), goroutine 1 (and in thorough goroutine 2) makes one call on k1 or k2 (value or error); fn yields in the middle; every interleaving at lock/WaitGroup granularity; overlap oracle on logical-clock stamps.
 func Verif_C07_SingleFlight() {
 	w := &c07World{running: map[string]int{}}
@@ -161,7 +161,7 @@ func Verif_C07_SingleFlight() {
 	rt.Assert(len(sf.(*flightGroup).calls) == 0, "no call record is retained after its flight has finished")
 }
 
-//verif:entry tier=quick,thorough cover=waited,otherkey,samekeyblocked,panicked
+//verif:entry dpor tier=quick,thorough cover=waited,otherkey,samekeyblocked,panicked
 //verif:doc LockedCalls.Do: 2 (quick) / 3 (thorough) goroutines on keys from two; every caller's own fn runs exactly once, same-key executions never overlap, results are the caller's own; optionally one execution blocks forever: callers on the other key still complete; optionally one function panics (its caller recovers): every other caller, also on the same key, still completes.
 func Verif_C07_LockedCalls() {
 	lc := NewLockedCalls()
@@ -240,7 +240,7 @@ func (r *c07Res) Close() error { return nil }
 
 var c07ErrCreate = errors.New("c07: create failed")
 
-//verif:entry tier=quick,thorough cover=created,reused,failed,retry
+//verif:entry dpor tier=quick,thorough cover=created,reused,failed,retry
 //verif:doc ResourceManager.GetResource: 2 (quick) / 3 (thorough) goroutines, keys from two, create may fail (symbolic) and yields; every interleaving: per key create succeeds at most once, all successful callers get the same instance, a failed create is reported and not stored (a later call creates again).
 func Verif_C07_ResourceManager() {
 	m := NewResourceManager()
